@@ -127,6 +127,8 @@ type chunkOutcome struct {
 	lastNo  int
 	stderr  string
 	races   []raceReport
+	// raceWorker marks a worker built with -race whose race log was scanned
+	raceWorker bool
 }
 
 type raceReport struct {
@@ -340,6 +342,7 @@ func RunDriver(p *Property, tier string, seed int64) int {
 				}
 				if st.Flavour == "race" {
 					oc.races = parseRaceLogs(base + ".race*")
+					oc.raceWorker = true
 				}
 				outcomes[ci] = oc
 			}(ci)
@@ -389,6 +392,10 @@ func RunDriver(p *Property, tier string, seed int64) int {
 			} else if oc.crashed {
 				first := firstFatalLine(oc.stderr)
 				violations = append(violations, Violation{Key: "crash:" + crashKey(first), Msg: "worker process died: " + first, Stage: si, CaseNo: oc.lastNo, Stderr: oc.stderr})
+			}
+			if oc.raceWorker {
+				total.Counters["race_detector_workers_scanned"]++
+				total.Counters["race_reports"] += 0
 			}
 			for _, r := range oc.races {
 				total.Counters["race_reports"]++
